@@ -6,6 +6,7 @@ A run is `steps` (JSON). `run_seed` generates and executes on the fly; `run_step
 import gc
 import hashlib
 import json
+import os
 import random
 import traceback
 
@@ -34,6 +35,82 @@ class Discard(Exception):
     """the generated history is ill-posed (fresh write fails too); not a verdict"""
 
 
+class PristineRef:
+    """Reference transcriptions in a process that has never executed a rockit operation.
+
+    The run process forks a *twin* before it does anything; the twin stays pristine and, per request, forks a
+    grandchild that writes the given specification afresh, hands it to a (stub) solver seam and returns the
+    hand-off record.  An error shared by the evolved OCP and by a fresh OCP built later in the same, already used
+    process (a process-global cache, a patched CasADi class, a counter) shows only against this reference."""
+
+    def __init__(self):
+        self.req_r, self.req_w = os.pipe()
+        self.res_r, self.res_w = os.pipe()
+        self.pid = os.fork()
+        if self.pid == 0:
+            os.close(self.req_w)
+            os.close(self.res_r)
+            self._serve()
+            os._exit(0)
+        os.close(self.req_r)
+        os.close(self.res_w)
+        self.rf = os.fdopen(self.res_r, "r")
+        self.wf = os.fdopen(self.req_w, "w")
+
+    def _serve(self):
+        rf = os.fdopen(self.req_r, "r")
+        wf = os.fdopen(self.res_w, "w")
+        for line in rf:
+            req = json.loads(line)
+            r_, w_ = os.pipe()
+            pid = os.fork()
+            if pid == 0:
+                os.close(r_)
+                try:
+                    out = self._compute(req)
+                except BaseException as e:
+                    out = {"error": "%s: %s" % (type(e).__name__, str(e)[:200])}
+                with os.fdopen(w_, "w") as f:
+                    f.write(json.dumps(out))
+                os._exit(0)
+            os.close(w_)
+            with os.fdopen(r_, "r") as f:
+                data = f.read()
+            os.waitpid(pid, 0)
+            wf.write((data or json.dumps({"error": "no answer"})) + "\n")
+            wf.flush()
+
+    @staticmethod
+    def _compute(req):
+        seam = S.SolverSeam(req["probe_seed"])
+        seam.install()
+        with S.Silence():
+            a = build(req["ops"], "pristine")
+            a.ocp.solve()
+        rec = seam.records[-1]
+        return {k: (v.tolist() if isinstance(v, np.ndarray) else ([x.tolist() for x in v] if k == "g" else v)) for k, v in rec.items() if not k.startswith("_")}
+
+    def record(self, ops, probe_seed):
+        self.wf.write(json.dumps({"ops": ops, "probe_seed": probe_seed}) + "\n")
+        self.wf.flush()
+        line = self.rf.readline()
+        out = json.loads(line) if line else {"error": "twin died"}
+        if "error" in out:
+            return None, out["error"]
+        for k in ("x0", "p", "lbg", "ubg"):
+            out[k] = np.array(out[k], dtype=float)
+        out["g"] = [np.array(x, dtype=float) for x in out["g"]]
+        return out, None
+
+    def close(self):
+        try:
+            self.wf.close()
+            self.rf.close()
+            os.waitpid(self.pid, 0)
+        except Exception:
+            pass
+
+
 class World:
     def __init__(self, prop, probe_seed, cfg=None):
         self.prop = prop
@@ -48,6 +125,7 @@ class World:
         self.stats = {"faults": {}, "probes": {}, "ops": {}, "transitions": set(), "checks_equal": 0, "checks": 0,
                       "rejected_loudly": 0, "bit_equal": 0}
         self.extra_oracles = []
+        self.pristine = None
         self.on_edit_raised = []
         self.on_fresh_failure = []
         self.last_sol = {}
@@ -540,6 +618,16 @@ class World:
         self.stats["checks_equal"] += 1
         if S.digest(rec1) == S.digest(recF):
             self.stats["bit_equal"] += 1
+        if self.pristine is not None:
+            recP, perr = self.pristine.record(program(act.spec), self.probe_seed)
+            if recP is None:
+                self.probe("pristine_reference_failed")
+            else:
+                d = S.compare(rec1, recP, fields=("size", "f", "g", "bounds", "x0", "p"))
+                if d:
+                    raise Violation("differs-from-pristine-process:" + d[0], "the NLP differs from the same specification written in a process "
+                                    "that never ran rockit before (the fresh OCP built in the used process agrees with the evolved one): " + d[1])
+                self.probe("pristine_reference_equal")
         self.log.append(["check", act.name, S.digest(rec1)])
         for orc in self.extra_oracles:
             orc(self, act, st, rec1, fresh, recF)
@@ -599,6 +687,7 @@ def swarm(r, prop, base_cfg):
     cfg["n_actors"] = 2 if r.random() < base_cfg.get("p_two_actors", 0.15) else 1
     cfg["keepN"] = r.random() < 0.7
     cfg["remethod_after_edit"] = r.choice([0.0, 0.3, 0.7])
+    cfg["pristine_ref"] = r.random() < base_cfg.get("p_pristine_ref", 0.3)
     return cfg
 
 
@@ -858,13 +947,17 @@ def E_mentions_T(ast):
 def make_world(prop, probe_seed, cfg):
     from . import props
 
+    ref = PristineRef() if (cfg or {}).get("pristine_ref") else None  # forked before this process touches rockit
     w = World(prop, probe_seed, cfg)
+    w.pristine = ref
     props.configure_world(w, prop)
     w.install()
     return w
 
 
 def finish(w, steps, result):
+    if w.pristine is not None:
+        w.pristine.close()
     result["log_digest"] = hashlib.sha256(json.dumps(w.log, sort_keys=True, default=str).encode()).hexdigest()[:16]
     result["steps"] = steps
     result["nsteps"] = len(steps)
@@ -941,7 +1034,7 @@ def run_seed(prop, seed, base_cfg):
 
 def run_steps(prop, steps, probe_seed, cfg=None):
     """replay: no PRNG involved"""
-    w = make_world(prop, probe_seed, cfg or {})
+    w = make_world(prop, probe_seed, dict(cfg or {}, pristine_ref=True))
     result = {"prop": prop, "probe_seed": probe_seed, "verdict": "ok"}
     try:
         for i, step in enumerate(steps):
